@@ -1,7 +1,7 @@
 --------------------------- MODULE Trace_Roborta ---------------------------
 (***************************************************************************)
 (* Trace validation for C08 and C11.  A session is one generated file:     *)
-(*   [tid, board, probs, keys, loaderr, games (a, b, c in Games encoding), *)
+(*   [tid, board, probs, via, created, keys, loaderr, games (a, b, c),      *)
 (*    exact (every probability within 1e-12 of k/10^6), raw checks,        *)
 (*    outcomes]                                                            *)
 (* C08: each emitted game is bisimilar to the rules' game (module Roborta).*)
@@ -19,12 +19,29 @@ Variants == <<"A", "B", "C">>
 
 Init == tid \in DOMAIN Sessions /\ step = 0 /\ fails = {}
 
+\* C17 for the manual entry point: the created file is named after the board and the three
+\* probabilities (whole percents): inputs/manual_robot_w<W>_l<L>_r<largest reward>_rb_lb_tb_[force_down].py
+RECURSIVE MaxOfSeq(_, _)
+MaxOfSeq(q, i) == IF i = 0 THEN 0 ELSE LET m == MaxOfSeq(q, i - 1) IN IF q[i] > m THEN q[i] ELSE m
+MaxOfMatrix(m) == MaxOfSeq([i \in DOMAIN m |-> MaxOfSeq(m[i], Len(m[i]))], Len(m))
+WholePct(x) == x % 10000 = 0
+ManualName ==
+    "inputs/manual_robot_w" \o ToString(S.board.W) \o "_l" \o ToString(S.board.L)
+      \o "_r" \o ToString(MaxOfMatrix(S.board.rewards))
+      \o "_rb" \o ToString(S.probs.rb \div 10000) \o "_lb" \o ToString(S.probs.lb \div 10000)
+      \o "_tb" \o ToString(S.probs.tb \div 10000) \o "_"
+      \o (IF MaxOfMatrix(S.board.moves) = 3 THEN "force_down" ELSE "") \o ".py"
+ManualNameClauses ==
+    IF S.via # "manual" \/ ~(WholePct(S.probs.rb) /\ WholePct(S.probs.lb) /\ WholePct(S.probs.tb)) THEN {}
+    ELSE IF S.created = <<ManualName>> THEN {} ELSE {"C17.ManualName expected " \o ManualName}
+
 Loaded == S.loaderr = "" /\ S.keys = <<"game_a", "game_b", "game_c">>
 
 CheckLoad ==
     /\ step = 0
     /\ fails' = fails \cup (IF S.loaderr # "" THEN {"C11.Loads " \o S.loaderr}
                             ELSE IF S.keys # <<"game_a", "game_b", "game_c">> THEN {"C11.Loads keys"} ELSE {})
+                      \cup ManualNameClauses
     /\ step' = IF Loaded THEN 1 ELSE 4
     /\ UNCHANGED tid
 
